@@ -42,16 +42,20 @@ Nested == c.mode # "2d"
 \* (hundreds of tasks: the interleavings of the logs are too many to explore).
 LogsInQueueOrder == /\ \A w \in 1 .. W : \A i, j \in 1 .. Len(c.logs[w]) : i < j => c.logs[w][i] < c.logs[w][j]
                     /\ \A k \in 1 .. T : Cardinality({ w \in 1 .. W : \E i \in 1 .. Len(c.logs[w]) : c.logs[w][i] = k }) = 1
-Clauses ==
-  IF c.raised # "" THEN <<c.pid \o ".raised">>
-  ELSE IF ~Nested
-       THEN Fail(Len(c.out) = T, c.pid \o ".number_of_results")
-         \o Fail(Len(c.out) = T => \A k \in 1 .. T : c.out[k] = Expected[k], c.pid \o ".table_at_wrong_position_or_with_wrong_options")
-       ELSE Fail(Len(c.out) = c.n0 /\ \A i \in 1 .. Len(c.out) : Len(c.out[i]) = c.n1, c.pid \o ".shape_of_nested_result")
-         \o Fail((Len(c.out) = c.n0 /\ \A i \in 1 .. Len(c.out) : Len(c.out[i]) = c.n1) =>
-                    \A i \in 1 .. c.n0, j \in 1 .. c.n1 : c.out[i][j] = Expected[i][j], c.pid \o ".table_at_wrong_position_or_with_wrong_options")
-  \o (IF c.models # <<>> THEN Fail(c.models = c.out, c.pid \o ".group_models_do_not_mirror_results") ELSE <<>>)
+PlacementClauses ==
+  IF ~Nested
+  THEN Fail(Len(c.out) = T, c.pid \o ".number_of_results")
+    \o Fail(Len(c.out) = T => \A k \in 1 .. T : c.out[k] = Expected[k], c.pid \o ".table_at_wrong_position_or_with_wrong_options")
+  ELSE Fail(Len(c.out) = c.n0 /\ \A i \in 1 .. Len(c.out) : Len(c.out[i]) = c.n1, c.pid \o ".shape_of_nested_result")
+    \o Fail((Len(c.out) = c.n0 /\ \A i \in 1 .. Len(c.out) : Len(c.out[i]) = c.n1) =>
+               \A i \in 1 .. c.n0, j \in 1 .. c.n1 : c.out[i][j] = Expected[i][j], c.pid \o ".table_at_wrong_position_or_with_wrong_options")
+\* the clauses about the group object apply to 2-D and 3-D runs alike
+GroupClauses ==
+     (IF c.models # <<>> THEN Fail(c.models = c.out, c.pid \o ".group_models_do_not_mirror_results") ELSE <<>>)
+  \o (IF "rmodels" \in DOMAIN c /\ c.rmodels # <<>>
+      THEN Fail(c.rmodels = c.rexpected, c.pid \o ".group_recompute_edges_differs_from_functional_edge_recomputation_of_each_model") ELSE <<>>)
   \o (IF "check_logs" \in DOMAIN c /\ c.check_logs THEN Fail(LogsInQueueOrder, c.pid \o ".worker_logs_not_a_partition_of_the_tasks_in_queue_order") ELSE <<>>)
+Clauses == IF c.raised # "" THEN <<c.pid \o ".raised">> ELSE PlacementClauses \o GroupClauses
 
 Judge == /\ stage = "judge"
          /\ fails' = Clauses
